@@ -179,6 +179,9 @@ def strategies(profile, max_ops=40):
         if mid_cancel:
             at = mid_cancel % len(steps) + 1
             extra = [['cancel', 0, cg if nest else 0]]
+            if nest >= 2 and cpu % 2 == 0:
+                # a second cancel one level further down (beneath the group just cancelled) or, wrapping round, further up
+                extra.append(['cancel', 0, (cg + 1) % (nest + 1)])
             if under is not None:
                 extra += [['update', 0, [under[0]], [{'g': under[1], 'parents': [], 'cpu': 1}]], ['groups', -1, None, False],
                           ['jobs', -1, None, False], ['commit', -1]]
